@@ -120,3 +120,36 @@ fn c12_vcf_read_field_utf8_character_split() {
 fn c15_vcf_read_field_keeps_previous_fields_1() {
     read_field_step::<1>();
 }
+
+fn read_line_step<const L: usize>() {
+    let pre: [u8; 2] = kani::any();
+    kani::assume(pre[0] < 0x80 && pre[1] < 0x80);
+    let mut dst = String::with_capacity(8);
+    dst.push(pre[0] as char);
+    dst.push(pre[1] as char);
+    let data: [u8; L] = kani::any();
+    let mut j = 0;
+    while j < L {
+        kani::assume(utf8_model_byte(data[j]));
+        j += 1;
+    }
+    let mut src = ChunkyLines(ChunkyBuf::new(&data).with_partial_budget(0));
+    match read_line(&mut src, &mut dst) {
+        Ok(n) => {
+            assert!(n <= L);
+            assert!(dst.len() >= 2, "read_line removed a byte of a previous field");
+            assert!(dst.as_bytes()[0] == pre[0] && dst.as_bytes()[1] == pre[1]);
+            kani::cover!(n == 1 && dst.len() == 2);
+        }
+        Err(e) => std::mem::forget(e),
+    }
+    std::mem::forget(dst);
+}
+
+// @verif prop=C15 id=O15.vcf.line-step/1 tier=quick unwind=5 timeout=900 stubs="ChunkyLines::read_until = plain loop with the std contract; std::str::from_utf8->validator model exact on ASCII + 2-byte sequences (precondition asserted)" bound="the LAST step of vcf read_record -- read_line appending the samples to the line buffer -- from an ARBITRARY pre-state (2 arbitrary ASCII bytes left by the mandatory fields) over an ARBITRARY 1-byte rest of line: the bytes of the earlier fields are still there afterwards" fns="vcf::io::reader::read_line"
+#[kani::proof]
+#[kani::unwind(5)]
+#[kani::stub(std::str::from_utf8, from_utf8_model)]
+fn c15_vcf_read_line_keeps_previous_fields_1() {
+    read_line_step::<1>();
+}
